@@ -547,6 +547,10 @@ func main() {
 		mainLoop(os.Args[2:])
 		return
 	}
+	if len(os.Args) > 1 && os.Args[1] == "locks" {
+		mainLocks(os.Args[2:])
+		return
+	}
 	if len(os.Args) > 1 && os.Args[1] == "ops" {
 		mainOps(os.Args[2:])
 		return
